@@ -65,8 +65,17 @@ TReset == /\ IsEv("reset")
           /\ sess' = EmptyF /\ pend' = EmptyF /\ prelay' = {} /\ lastOwn' = {} /\ duty' = {} /\ ads' = NewAdsT
           /\ l' = l + 1 /\ skip' = FALSE
 
-Skipped == /\ l <= Len(Trace) /\ E.ev # "reset" /\ (skip \/ ~ns.alive)
+Skipped == /\ l <= Len(Trace) /\ E.ev \notin {"reset", "node_new"} /\ (skip \/ ~ns.alive)
            /\ l' = l + 1 /\ Keep /\ skip' = skip
+
+\* The instances of one node ID are ordered by their start epochs (NetCore compares epochs and nothing else), so two
+\* instances must never share one: the trace of an instance label then contains a second creation event.
+TNodeNew == /\ IsEv("node_new")
+            /\ PrintT(<<"DIFF", l, "node_new", {"start_epoch_reused_by_later_instance"}>>)
+            /\ PrintT(<<"CLASS", "node_new">>)
+            /\ ns' = NewNode(ns.id, ns.epoch)
+            /\ sess' = EmptyF /\ pend' = EmptyF /\ prelay' = {} /\ lastOwn' = {} /\ duty' = {} /\ ads' = NewAdsT
+            /\ l' = l + 1 /\ skip' = TRUE
 
 Live(e) == IsEv(e) /\ ~skip /\ ns.alive
 
@@ -299,7 +308,7 @@ THStatus ==
               \cup (IF ~ValidTable(ns.known, ns.id, E.table, E.costs) THEN {"table"} ELSE {})
      IN Keep /\ Advance(d)
 
-TNext == TReset \/ Skipped \/ TAdSend \/ TSessStart \/ TRecv \/ TReject \/ TConnAdd \/ TKnownAdd \/ TEstablished \/ TConnDel
+TNext == TReset \/ Skipped \/ TNodeNew \/ TAdSend \/ TSessStart \/ TRecv \/ TReject \/ TConnAdd \/ TKnownAdd \/ TEstablished \/ TConnDel
          \/ TKnownDel \/ TSessEnd \/ TRuSelf \/ TRuSeen \/ TRuDup \/ TRuApply \/ TFlood \/ TMkUpdate \/ TRebuild
          \/ TShutdown \/ TOther \/ THStatus \/ TSeenExpire \/ TAdLocal \/ TAdWithdraw \/ TAdRecv
 
